@@ -22,8 +22,10 @@
    to be marshalled onto the loop, so the order of the two logged events decides.
 
    MECHANISM (design level).  asyncio as far as the schedulers use it - ready FIFO, timer set,
-   per-handle cancelled flag, run_once = move due timers, take ntodo handles, test the flag, run;
-   call_soon_threadsafe = append to the ready FIFO from any thread - and the schedulers' closures
+   per-handle cancelled flag, the self-pipe; _run_once = drop cancelled timers at the head of the
+   heap, poll or block in select(), drain the self-pipe, move due timers, take ntodo handles, test
+   the flag, run; call_soon_threadsafe = append to the ready FIFO, THEN wake the selector (two
+   steps; a plain call_soon does not wake a sleeping loop) - and the schedulers' closures
    at line granularity: schedule = create the handle(s); the thread-safe relative schedule in two
    stages (stage 1 posts stage2 to the loop and appends the handle to the closure's list, stage 2
    - on the loop - calls call_later and appends the timer handle); dispose = decide direct vs
@@ -48,7 +50,9 @@
    long after the schedule returned.  The scenario and the scripts derived from it are exported;
    the replayer performs them on the real code.
 
-   AsyncIOSchedTrace.tla constrains the monitor actions by recorded events (Binding B).        *)
+   AsyncIOSchedMC.tla   chooses variant / scenario in Init (families, design invariants, negative controls);
+   AsyncIOSchedTrace.tla constrains the MONITOR actions by recorded events (Binding B, verdicts);
+   AsyncIOSchedMech.tla  matches recorded events against monitor + mechanism (model drift only).   *)
 EXTENDS Integers, Sequences, FiniteSets, TLC, Json
 
 CONSTANTS Items,        \* 1..N
